@@ -23,6 +23,7 @@ type Case struct {
 	Ctl   string    `json:"ctl"`
 	Args  []ref.Val `json:"args"`
 	Dirty string    `json:"dirty,omitempty"`
+	Tag   string    `json:"tag,omitempty"` // param-mix: family/context/arguments left
 }
 
 func toObj(v ref.Val) slip.Object {
@@ -279,12 +280,15 @@ func variants(ctl string, args []ref.Val) []string {
 	return outs
 }
 
+// judgeTrace, when set, observes the oracle's own run (monitor counters).
+var judgeTrace func(d *ref.Dir, role string, i int, v ref.Val)
+
 func judge(ctl string, args []ref.Val) verdict {
 	thePrinter.err = nil
 	if badObject(args) {
 		return verdict{kind: "unjudged", reason: "object-source-error"}
 	}
-	want, used, err := ref.Render(ctl, args, thePrinter, ref.Opts{})
+	want, used, err := ref.Render(ctl, args, thePrinter, ref.Opts{Trace: judgeTrace})
 	if err != nil {
 		re, _ := err.(*ref.Error)
 		return verdict{kind: "unjudged", reason: re.Kind, wantErr: re}
@@ -377,7 +381,41 @@ func exec(x *fw.Ctx, c Case) {
 	}
 	coverDirs(x, dirs, 0)
 	coverArgs(x, c.Args)
+	if c.Tag != "" {
+		if f := strings.Split(c.Tag, "/"); len(f) == 3 {
+			x.Cover("mix-family:" + f[0])
+			x.Cover("mix-context:" + f[1])
+			x.Cover("mix-args-left:" + f[2])
+		}
+	}
+	// what the oracle resolved the # and v parameters to while it rendered
+	judgeTrace = func(d *ref.Dir, role string, i int, val ref.Val) {
+		switch role {
+		case "param":
+			if i < len(d.Params) && d.Params[i].Kind == '#' {
+				n, _ := val.Int()
+				k := 9
+				if n != nil && n.IsInt64() && n.Int64() < 9 {
+					k = int(n.Int64())
+				}
+				x.Cover(fmt.Sprintf("hash-value:%d", k))
+				x.Cover(fmt.Sprintf("hash-in-slot:%d", i))
+				for j := 0; j < i; j++ {
+					if d.Params[j].Kind == 'v' {
+						x.Cover("hash-after-v-resolved")
+						break
+					}
+				}
+			}
+			if i < len(d.Params) && d.Params[i].Kind == 'v' && val.K != "" {
+				x.Cover("v-value:" + map[string]string{"i": "integer", "c": "character"}[val.K])
+			}
+		case "v-nil":
+			x.Cover("v-value:nil")
+		}
+	}
 	v := judge(c.Ctl, c.Args)
+	judgeTrace = nil
 	obs := map[string]any{"ctl": c.Ctl, "args": showArgs(c.Args)}
 	x.Observe(obs)
 	if v.kind == "unjudged" {
@@ -480,6 +518,9 @@ func coverDirs(x *fw.Ctx, dirs []*ref.Dir, depth int) {
 		if d.Ch == 'r' && 0 < len(d.Params) {
 			x.Cover("dir:~nR")
 		}
+		if 0 < len(d.Params) {
+			coverParamMix(x, d)
+		}
 		for i, p := range d.Params {
 			switch p.Kind {
 			case 'v':
@@ -505,6 +546,43 @@ func coverDirs(x *fw.Ctx, dirs []*ref.Dir, depth int) {
 			}
 		}
 	}
+}
+
+// coverParamMix records which kinds of prefix parameter one directive mixes and
+// in which order v and # come.
+func coverParamMix(x *fw.Ctx, d *ref.Dir) {
+	has := map[byte]bool{}
+	vSeen, hashSeen := 0, 0
+	for _, p := range d.Params {
+		k := p.Kind
+		if k == 0 {
+			k = '_'
+		}
+		has[k] = true
+		switch p.Kind {
+		case 'v':
+			if 0 < hashSeen {
+				x.Cover("params:#-before-v")
+			}
+			vSeen++
+		case '#':
+			if 0 < vSeen {
+				x.Cover(fmt.Sprintf("params:v-before-# (%d v)", min(vSeen, 3)))
+			}
+			if 0 < hashSeen {
+				x.Cover("params:#-twice")
+			}
+			hashSeen++
+		}
+	}
+	var ks []string
+	for _, k := range []byte("nc_v#") {
+		if has[k] {
+			ks = append(ks, map[byte]string{'n': "int", 'c': "char", '_': "omitted", 'v': "v", '#': "#"}[k])
+		}
+	}
+	x.Cover("params-mix:" + strings.Join(ks, "+"))
+	x.Cover(fmt.Sprintf("params-count:%d", len(d.Params)))
 }
 
 var two63 = new(big.Int).Lsh(big.NewInt(1), 63)
@@ -586,6 +664,7 @@ func init() {
 		intGridVals = append(intGridVals, n)
 	}
 	buildProbes()
+	buildMix()
 }
 
 var (
@@ -691,7 +770,7 @@ func englishRandom(r *rand.Rand) Case {
 }
 
 func nCases(tier string) int {
-	return romanBlock + 2*englishSmall + 2*len(englishBig) + intGridSize(tier) + len(probes) + englishRandomCount(tier) + randomCount(tier)
+	return romanBlock + 2*englishSmall + 2*len(englishBig) + intGridSize(tier) + len(probes) + mixCount(tier) + englishRandomCount(tier) + randomCount(tier)
 }
 
 func gen(r *rand.Rand, i int, tier string) Case {
@@ -727,6 +806,10 @@ func gen(r *rand.Rand, i int, tier string) Case {
 		return Case{Blk: "probe", Ctl: probes[i].ctl, Args: probes[i].args}
 	}
 	i -= len(probes)
+	if i < mixCount(tier) {
+		return mixCase(i)
+	}
+	i -= mixCount(tier)
 	if i < englishRandomCount(tier) {
 		return englishRandom(r)
 	}
